@@ -2,6 +2,7 @@ package compose
 
 import (
 	"context"
+	"errors"
 	"io"
 
 	"github.com/cloudwego/eino/callbacks"
@@ -285,4 +286,134 @@ func VerifC19TwoBranches() {
 		c19Read(sr, readN)
 	}
 	c19Finish([]*c19Prod{pa}, "node with two stream branches")
+}
+
+var c19ErrChunk = errors.New("c19 error chunk")
+
+// a producer that emits an error chunk at position errAt and keeps producing afterwards
+func (p *c19Prod) lambdaWithErr(capacity int, errAt int) *Lambda {
+	return StreamableLambda(func(ctx context.Context, in map[string]any) (*schema.StreamReader[map[string]any], error) {
+		sr, sw := schema.Pipe[map[string]any](capacity)
+		go func() {
+			defer sw.Close()
+			for i := 0; i < p.k; i++ {
+				var closed bool
+				if i == errAt {
+					closed = sw.Send(nil, c19ErrChunk)
+				} else {
+					closed = sw.Send(map[string]any{p.key: i + 1}, nil)
+				}
+				if closed {
+					p.told = true
+					return
+				}
+			}
+			p.finished = true
+		}()
+		return sr, nil
+	})
+}
+
+// a consumer that tolerates a bad chunk: it stops reading at the first error, closes its input and answers with what
+// it has seen so far
+func c19Tolerant(key string) *Lambda {
+	return TransformableLambda(func(ctx context.Context, in *schema.StreamReader[map[string]any]) (*schema.StreamReader[map[string]any], error) {
+		n := 0
+		for i := 0; i < 16; i++ {
+			_, err := in.Recv()
+			if err != nil {
+				break
+			}
+			n++
+		}
+		in.Close()
+		return schema.StreamReaderFromArray([]map[string]any{{key: n}}), nil
+	})
+}
+
+// fan-out of a stream that carries an error chunk in the middle to two tolerant consumers (DAG and Pregel): the run
+// completes, the output is read to the end; the producer is released although nobody reads past the error
+func VerifC19ErrorChunk() {
+	ctx := context.Background()
+	vcfg("preempt", vtier())
+	vcfg("selectfirst", 1)
+	K := 3
+	pa := &c19Prod{key: "a", k: K}
+	g := NewGraph[map[string]any, map[string]any]()
+	_ = g.AddLambdaNode("src", pa.lambdaWithErr(vchoose("cap", 2), vchoose("errAt", K)))
+	_ = g.AddLambdaNode("left", c19Tolerant("left"))
+	_ = g.AddLambdaNode("right", c19Tolerant("right"))
+	_ = g.AddEdge(START, "src")
+	_ = g.AddEdge("src", "left")
+	_ = g.AddEdge("src", "right")
+	_ = g.AddEdge("left", END)
+	_ = g.AddEdge("right", END)
+	var opts []GraphCompileOption
+	if vchoose("dag", 2) == 1 {
+		opts = append(opts, WithNodeTriggerMode(AllPredecessor))
+	}
+	r, err := g.Compile(ctx, opts...)
+	vassert(err == nil, "graph compiles")
+	sr, err := r.Stream(ctx, map[string]any{"in": 1})
+	vassert(err == nil, "stream run starts")
+	c19ReadAll(sr)
+	c19Finish([]*c19Prod{pa}, "fan-out of a stream with an error chunk")
+}
+
+// two lanes merged at END under output keys; one lane converts its producer's stream item-wise and the conversion
+// panics on one item while the producer still has data: the caller sees an error item, reads on / closes, and the
+// producer of the panicking lane is released all the same
+func VerifC19ConvertPanic() {
+	ctx := context.Background()
+	if vtier() == 0 {
+		vcfg("fifo", 1) // six goroutines: the deterministic schedule in the quick tier, one deviation from it in the thorough tier
+	} else {
+		vcfg("delaybound", 1)
+	}
+	vcfg("selectfirst", 1)
+	K := 3
+	pa, pb := &c19Prod{key: "a", k: K}, &c19Prod{key: "b", k: 2}
+	at := 1 + vchoose("at", 2)
+	g := NewGraph[map[string]any, map[string]any]()
+	_ = g.AddLambdaNode("src", pa.lambda(vchoose("cap", 2)))
+	_ = g.AddLambdaNode("title", TransformableLambda(func(ctx context.Context, in *schema.StreamReader[map[string]any]) (*schema.StreamReader[map[string]any], error) {
+		return schema.StreamReaderWithConvert(in, func(m map[string]any) (map[string]any, error) {
+			if m["a"] == at {
+				panic("c19 convert panic")
+			}
+			return map[string]any{"n": m["a"]}, nil
+		}), nil
+	}), WithOutputKey("title"))
+	_ = g.AddLambdaNode("warm", pb.lambda(1))
+	_ = g.AddLambdaNode("note", c19Forward("note"), WithOutputKey("note"))
+	_ = g.AddEdge(START, "src")
+	_ = g.AddEdge("src", "title")
+	_ = g.AddEdge(START, "warm")
+	_ = g.AddEdge("warm", "note")
+	_ = g.AddEdge("title", END)
+	_ = g.AddEdge("note", END)
+	var opts []GraphCompileOption
+	if vchoose("dag", 2) == 1 {
+		opts = append(opts, WithNodeTriggerMode(AllPredecessor))
+	}
+	r, err := g.Compile(ctx, opts...)
+	vassert(err == nil, "graph compiles")
+	sr, err := r.Stream(ctx, map[string]any{"in": 1})
+	vassert(err == nil, "stream run starts")
+	sawErr := false
+	for i := 0; i < 16; i++ {
+		_, e := sr.Recv()
+		if e == io.EOF {
+			break
+		}
+		if e != nil {
+			sawErr = true
+			if vchoose("stopAtErr", 2) == 1 {
+				break
+			}
+		}
+	}
+	sr.Close()
+	vassert(sawErr, "the panic of the conversion surfaces as an error item")
+	c19Finish([]*c19Prod{pa, pb}, "fan-in with a panicking conversion")
 }
